@@ -80,6 +80,7 @@ def make_market_class():
             self.mid = mid
             self.net = Decimal(0)
             self.update_script = {}        # model time of the bar -> [tags] recorded by update()
+            self.accrue = False            # C02: the market's value depends on the data of every bar (column v)
 
         def check_market(self):
             super().check_market()
@@ -87,6 +88,10 @@ def make_market_class():
         def update(self):
             now = sec(self.rec.actuator._currents.timestamp)
             self.rec.ev(["update", now, self.mid])
+            if self.accrue and self.is_open:
+                st = self._market_status.data
+                if st is not None and len(st) and not pd.isna(st["v"]):
+                    self.net += Decimal(int(st["v"])) / 1000
             for tag in self.update_script.get(now, []):
                 a = ProbeAction(market=self.market_info)
                 a.comment = tag
@@ -122,9 +127,11 @@ def make_market_class():
             self._data = self._data.resample(freq).first()
 
         @write_func
-        def op(self, tag, ok=True):
+        def op(self, tag, ok=True, amount=None):
             if not ok:
                 raise ValueError("market refuses " + tag)
+            if amount is not None:
+                self.net += amount
             a = ProbeAction(market=self.market_info)
             a.comment = tag
             self._record_action(a)
@@ -162,8 +169,48 @@ def price_src(v):
     return int(d)
 
 
+def uni_market(name, times, rec, mid):
+    """a real UniLpMarket over a synthetic flat pool on the given minutes, its set_market_status / update wrapped so that the
+    calls appear in the trace like a probe market's; `op(tag, ok)` = a small real buy (accepted) or an impossible one (refused)"""
+    from demeter import MarketInfo, TokenInfo
+    from demeter.uniswap import UniV3Pool, UniLpMarket
+    usdc, eth = TokenInfo("usdc", 6), TokenInfo("eth", 18)
+    pool = UniV3Pool(token0=usdc, token1=eth, fee=0.05, quote_token=usdc)
+    n = len(times)
+    index = pd.DatetimeIndex([at(t) for t in times])
+    df = pd.DataFrame(index=index)
+    df["netAmount0"] = [0] * n
+    df["netAmount1"] = [0] * n
+    for c in ("closeTick", "openTick", "lowestTick", "highestTick"):
+        df[c] = pd.Series([200000] * n, index=index, dtype="int64")
+    for c in ("inAmount0", "inAmount1"):
+        df[c] = pd.Series([Decimal(0)] * n, index=index, dtype=object)
+    df["currentLiquidity"] = pd.Series([Decimal(10 ** 18)] * n, index=index, dtype=object)
+    m = UniLpMarket(MarketInfo(name), pool)
+    m.add_statistic_column(df)
+    m.data = df
+    real_set, real_update = m.set_market_status, m.update
+
+    def set_market_status(data, price):
+        real_set(data, price)
+        stage = 0 if not rec.initialized else (2 if rec.second else 1)
+        rec.ev(["set", sec(data.timestamp), mid, stage, bool(m.is_open), sec(data.timestamp)])
+
+    def update():
+        rec.ev(["update", sec(rec.actuator._currents.timestamp), mid])
+        real_update()
+
+    def op(tag, ok=True, amount=None):
+        m.buy(Decimal("0.001") if ok else Decimal(10 ** 12))
+        rec.actuator.comment_last_action(tag)
+    m.set_market_status, m.update, m.op, m.mid = set_market_status, update, op, mid
+    m.update_script = {}
+    return m, usdc, eth
+
+
 def build(markets, price_times, interval="1min", rec=None):
-    """real Actuator + Broker with probe markets.  markets = [(name, [model times], has_open_callback)]"""
+    """real Actuator + Broker.  markets = [(name, [model times], has_open_callback)] (probe markets) or
+    (name, times, has_open_callback, "uni") for a real UniLpMarket"""
     setup()
     from demeter import Actuator, MarketInfo, TokenInfo
     PM = make_market_class()
@@ -172,15 +219,27 @@ def build(markets, price_times, interval="1min", rec=None):
     a = Actuator()
     rec.actuator = a
     ms = []
-    for i, (name, times, has_open) in enumerate(markets):
-        m = PM(MarketInfo(name), frame(times), rec, i)
-        m.quote_token = usdc
+    eth = None
+    for i, spec in enumerate(markets):
+        name, times, has_open = spec[0], spec[1], spec[2]
+        if len(spec) > 3 and spec[3] == "uni":
+            m, usdc_u, eth = uni_market(name, times, rec, i)
+            usdc = usdc_u
+        else:
+            m = PM(MarketInfo(name), frame(times), rec, i)
+            m.quote_token = usdc
         if has_open:
             m.open = (lambda mid: lambda snap: rec.on_open(mid, snap))(i)
         a.broker.add_market(m)
         ms.append(m)
-    a.broker.set_balance(usdc, 1000)
-    a.set_price(price_frame(price_times), usdc)
+    for m in ms:
+        m.quote_token = usdc
+    a.broker.set_balance(usdc, 100000)
+    pf = price_frame(price_times)
+    if eth is not None:
+        a.broker.set_balance(eth, 10)
+        pf["ETH"] = Decimal(2065)
+    a.set_price(pf, usdc)
     a.interval = interval
     # the two refreshes of a bar differ only in the private flag; wrap the method to see which one is running
     inner = a._Actuator__set_market_snapshot
